@@ -244,7 +244,7 @@ def src_field(text):
 RATIO, SLACK = 4, 8
 
 
-def check_depthsem(run, impl_exe, model_exe, rng, tier):
+def check_depthsem(run, impl_exe, model_exe, rng, tier, stops=True):
     progs = []
     depths = [0, 1, 2, 5, 13] if tier == 'quick' else [0, 1, 2, 3, 4, 5, 6, 8, 11, 13, 17, 21, 34, 55]
     for d in depths:
@@ -273,6 +273,8 @@ def check_depthsem(run, impl_exe, model_exe, rng, tier):
             continue
         if mr == 'FUEL':
             continue     # did not finish within the model's fuel: no statement
+        if mc == 'so' and not stops:
+            continue     # the canary already reported that unbounded recursion is not stopped
         src = js_prog(p)
         limits = set()
         if mc == 'ok':
@@ -535,7 +537,29 @@ def flat_programs(n):
 LIMITS = list(range(1, 65)) + [100, 500, 2000]
 
 
-def check_sweep(run, impl_exe, cli, rng, tier):
+def canary(run, impl_exe):
+    """unbounded recursions under a small limit, one case per process, short wall-clock cap: when the limit is not
+    enforced the evaluator does not terminate, and the big batches below would spend a timeout per case"""
+    progs = [f for f in cyclic_programs() if f['infinite']]
+    for name, p in shape_programs(3):
+        if name.startswith('infinite'):
+            progs.append(fam('ds-' + name, js_prog(p), None, infinite=True))
+    cases = [('y%d' % i, 'eval', ['stack=%x' % 30, src_field(f['src'])]) for i, f in enumerate(progs)]
+    res = vlib.run_sharded(impl_exe, [vlib.impl_line(c) for c in cases], timeout=90, shards=len(cases))
+    ok = True
+    for (cid, _, _), f in zip(cases, progs):
+        r = res.get(cid, 'NOOUTPUT')
+        run.evaluations += 1
+        ic = parse_impl(r)[0]
+        if ic != 'so':
+            ok = False
+            key = 'unbounded-recursion-not-stopped' if ic in ('ok', 'inf', 'other') else 'native-failure:' + r.split('\t')[0]
+            run.violation(key, 'unbounded recursion %s under stack=30 answers %s instead of StackOverflow' % (f['name'], r[:60]),
+                          {'kind': 'src', 'name': f['name'], 'depth': 0, 'stack': 30, 'source': f['src'], 'impl': r[:300]})
+    return ok
+
+
+def check_sweep(run, impl_exe, cli, rng, tier, stops=True):
     depths = [0, 1, 3, 9, 33, 120] if tier == 'quick' else [0, 1, 2, 3, 4, 5, 7, 9, 14, 20, 33, 50, 64, 99, 120, 250, 600]
     jobs = []       # (family dict, d, [limits])
     for d in depths:
@@ -551,6 +575,8 @@ def check_sweep(run, impl_exe, cli, rng, tier):
                 lim.update(rng.sample(LIMITS, 6))
             jobs.append((f, d, sorted(x for x in lim if 0 <= x)))
     for f in cyclic_programs():
+        if f['infinite'] and not stops:
+            continue
         lim = set(LIMITS if tier == 'thorough' else rng.sample(LIMITS, 8) + [1, 2, 3, 4, 500, 2000])
         if f['cycle']:
             lim.update(range(max(1, f['cycle'] - 2), f['cycle'] + 8))
@@ -569,7 +595,7 @@ def check_sweep(run, impl_exe, cli, rng, tier):
                 jobs.insert(0, (fam('corpus-%d' % i, src, exp, flat=True), 0, [30, 64, 100, 500, 2000]))
             elif kind == 'cycle':
                 jobs.insert(0, (fam('corpus-%d' % i, src, None, cyc=int(exp)), int(exp), [1, 2, 3, 4, 5, 8, 30, 500, 2000]))
-            else:
+            elif stops:
                 jobs.insert(0, (fam('corpus-%d' % i, src, None, infinite=True), 0, [1, 2, 3, 30, 500, 2000]))
     cases, index = [], {}
     for j, (f, d, lims) in enumerate(jobs):
@@ -647,7 +673,7 @@ def check_sweep(run, impl_exe, cli, rng, tier):
     tmp = tempfile.mkdtemp(prefix='rsj-verif-c10.')
     try:
         subset = []
-        for f in families(20)[:8] + cyclic_programs():
+        for f in families(20)[:8] + [g for g in cyclic_programs() if stops or not g['infinite']]:
             for s in (3, 15, 500):
                 subset.append((f, s))
         if tier == 'quick':
@@ -737,8 +763,9 @@ def check(run):
     model_exe = vlib.build_model('tracelen')
     cli = vlib.build_cli()
     check_tracelen_model(run, model_exe, rng, run.tier)
-    check_depthsem(run, impl_exe, model_exe, rng, run.tier)
-    check_sweep(run, impl_exe, cli, rng, run.tier)
+    stops = canary(run, impl_exe)
+    check_depthsem(run, impl_exe, model_exe, rng, run.tier, stops)
+    check_sweep(run, impl_exe, cli, rng, run.tier, stops)
 
 
 def replay(run, path):
